@@ -141,6 +141,26 @@ def run(ctx):
                        what='analyze_type unions every VALUES row with the first row instead of with the type accumulated so far: the list '
                             'gets the type union(first, last) and a wider middle row is narrowed without an error')
 
+    R7 = 'C16-R7'
+    ctx.rule(R7, 'the scale is part of a declared DECIMAL(p, s): INSERT brings every column to its declared type with ArrayImpl::cast (R2), '
+                 'so that cast must enforce the scale - a rescale whose amount is the `s` of the target DataType::Decimal, applied to the '
+                 'array it returns (COPY FROM has its own rescale)')
+    from rules.c14 import cast_family
+    fam = cast_family(prog)
+    if ctx.anchor(R7, 'array::ops::ArrayImpl::cast', bool(fam)):
+        rs = [(g, c) for g in fam for c in g.calls if re.search(r'PrimitiveArray::<.*Decimal>::rescale$|::rescale$', c.name or '')]
+        ok = False
+        for g, c in rs:
+            if len(c.args) > 1 and c.args[1]['k'] != 'const':
+                def from_type(kind, payload, bb):
+                    return kind == 'assign' and any('as:Decimal' in pl['p'] for pl in __pl(payload))
+                ok = ok or flows_from(g, c.args[1]['pl']['l'], from_type, depth=6)
+        ctx.ob(R7, 'ArrayImpl::cast·decimal-scale-enforced', ok,
+               f'rescale calls in the cast family: {[site(g, c.bb) for g, c in rs]}; scale taken from the target type: {ok}',
+               [site(g, c.bb) for g, c in rs] or [fam[0].loc],
+               what='a cast to DECIMAL(p, s) keeps the scale of its source: `insert into t values (1.234)` into a DECIMAL(15,2) column stores '
+                    'and returns 1.234')
+
     R3 = 'C16-R3'
     ctx.rule(R3, 'RowsetBuilder::new chooses the (nullable / non-nullable) block format from ColumnCatalog::is_nullable')
     rb = prog.group('storage::secondary::rowset::rowset_builder::RowsetBuilder::new')
